@@ -27,7 +27,7 @@ Import ListNotations.
 From TI Require Import lib.Term lib.TermFacts lib.Rect lib.Lines lib.TermScroll
      model.Padding model.Draw model.GfxRender
      proofs.BlockRect proofs.DrawLines proofs.DrawProofs proofs.DrawProofsOld
-     proofs.DrawStyles proofs.DrawFinal.
+     proofs.DrawStyles proofs.DrawFinal lib.RectCheck model.DrawTie proofs.DrawTieProofs.
 Open Scope Z_scope.
 
 (** the loop invariant of [_animate_] (induction on the list of later frames): after every
@@ -179,3 +179,22 @@ Theorem C06_old_draw_rejects_iff :
   <-> ~ old_doc_fits cs scroll anim dyn w h rawW rawH tw th.
 Proof. exact old_draw_rejects_iff. Qed.
 Print Assumptions C06_old_draw_rejects_iff.
+
+(** the executable predicate the correspondence evaluates on the implementation's own
+    bytes implies the final-state predicate of the theorems *)
+Theorem C06_final_ok_sound :
+  forall W H pw ph Ref St r0 hide,
+  final_ok W H pw ph Ref St r0 = true ->
+  DrawFinal W H 0 0 (start r0 0) hide pw ph Ref St.
+Proof. exact final_ok_sound. Qed.
+Print Assumptions C06_final_ok_sound.
+
+(** the decisions the correspondence uses for the documented size rules are those rules *)
+Theorem C06_docb_spec :
+  (forall cs allow anim pw ph tw th,
+      docb cs allow anim pw ph tw th = true <-> doc_fits cs allow anim pw ph tw th)
+  /\ (forall cs scroll anim dyn w h rawW rawH tw th,
+        old_docb cs scroll anim dyn w h rawW rawH tw th = true
+        <-> old_doc_fits cs scroll anim dyn w h rawW rawH tw th).
+Proof. exact (conj docb_spec old_docb_spec). Qed.
+Print Assumptions C06_docb_spec.
